@@ -1,4 +1,5 @@
 """C20 — clear_config returns the configuration to its pristine state."""
+import json
 import gen_gin as G
 import gindom
 import refmodel
@@ -28,6 +29,8 @@ def gen_case(rng):
   regs = G.gen_registry(rng, rng.randint(2, 3))
   scopes = [[], ['a'], ['a', 'b']]
   pre = []
+  defined = {}
+  interactive = False
   next_obj = [100]
   for _ in range(rng.randint(6, 20)):
     r = rng.random()
@@ -38,17 +41,38 @@ def gen_case(rng):
     elif r < 0.75:
       pre.append({'op': 'singleton', 'key': rng.choice(['s1', 's2', 'a/s1']), 'ctor': rng.random() < 0.85})
     elif r < 0.9:
-      pre.append({'op': 'constant', 'name': rng.choice(CONST_NAMES), 'nameValid': True, 'val': G.gen_value(rng, 1)})
+      cn = rng.choice(CONST_NAMES)
+      pre.append({'op': 'constant', 'name': cn, 'nameValid': True,
+                  'val': {'o': 300 + rng.randint(0, 9)} if rng.random() < 0.5 else G.gen_value(rng, 1)})
+      if interactive or not refmodel.suffix_matches(defined, cn):
+        defined[cn] = True
     else:
-      pre.append({'op': 'interactive', 'on': rng.random() < 0.7})
+      interactive = rng.random() < 0.7
+      pre.append({'op': 'interactive', 'on': interactive})
   pre = [o for o in pre if o['op'] != 'clear']
   clear = {'op': 'clear', 'constants': rng.random() < 0.35}
+  const_names = sorted(c for c in defined if refmodel.suffix_matches(defined, c) == [c])
   tail = [{'op': 'locked'}, {'op': 'config'}, {'op': 'operative'}, {'op': 'constants'}, {'op': 'registry'},
-          {'op': 'singleton', 'key': 's1', 'ctor': False}, {'op': 'singleton', 'key': 's1', 'ctor': True}]
+          {'op': 'singleton', 'key': 's1', 'ctor': False}, {'op': 'singleton', 'key': 's1', 'ctor': True},
+          {'op': 'prov'}, {'op': 'opprov'}]
   for _ in range(rng.randint(1, 3)):
     tail.append(G.gen_call(rng, rng.choice(regs), G.gen_enter(rng, rng.choice(scopes))))
   b = G.gen_bind_attempt(rng, regs, scopes)
-  tail += [b, {'op': 'config'}, {'op': 'operative'}]
+  tail += [b, {'op': 'config'}, {'op': 'operative'}, {'op': 'prov'}, {'op': 'opprov'}]
+  # a surviving constant must still be the very same object: deliver it through a consuming call
+  if const_names and not clear['constants']:
+    cons = rng.choice(regs)
+    cls = [n for n, k in G.param_classes(cons).items() if k == 'valid']
+    if cls and all(p[1] is not None or p[0] in ('self', 'cls') for p in cons['sig']['pos'] + cons['sig']['kwonly']):
+      cname = rng.choice(const_names)
+      tail.append({'op': 'macrolookup', 'name': cname})
+      tail.append({'op': 'bind', 'scope': '', 'sel': cons['_selector'], 'arg': rng.choice(cls),
+                   'val': {'const': cname}, '_form': 'text', 'block': False, '_maybe_ambiguous': True})
+      call = G.gen_call(rng, cons, [], w_bad=0.0)
+      call['op'] = 'ecall'
+      call['args'] = call['args'][:1] if '_selfname' in call else []
+      call['kwargs'] = []
+      tail += [call, {'op': 'log'}]
   return {'dom': 'gin', 'ops': list(regs) + pre + [clear] + tail, '_ntail': len(tail)}
 
 
@@ -107,6 +131,11 @@ def oracle(case, impl):
     if op['op'] == 'singleton':
       a2 = {'ok': 'obj'} if 'ok' in a2 else a2
       b2 = {'ok': 'obj'} if 'ok' in b2 else b2
+    if op['op'] in ('ecall', 'log'):
+      # per-probe call indices count calls made before the clear as well (harness counters)
+      import re as _re
+      a2 = json.loads(_re.sub(r'\{"res": \["([^"]*)", \d+\]\}', r'{"res": ["\1"]}', json.dumps(a2)))
+      b2 = json.loads(_re.sub(r'\{"res": \["([^"]*)", \d+\]\}', r'{"res": ["\1"]}', json.dumps(b2)))
     if a2 != b2:
       shown = {kk: vv for kk, vv in op.items() if kk != 'sig'}
       return f'post-clear op {j} {shown}: after clear {a2}, fresh interpreter {b2}'
@@ -129,6 +158,8 @@ def shrink(case):
   for k in range(len(ops) - ntail - 2, -1, -1):
     if ops[k]['op'] == 'register' and not ops[k]['name'].startswith('late'):
       continue
+    if ops[k]['op'] in ('constant', 'interactive'):
+      continue  # the tail's %constant binding is generated against these
     yield {'dom': 'gin', 'ops': ops[:k] + ops[k + 1:], '_ntail': ntail}
 
 
